@@ -76,6 +76,14 @@ CHECKS = {
         note="Hang detection is wall clock (10 s per run in a forked child); the watchdog reports the decisions drawn so far as the replay. Found and fixed: endless loop on dispose-by-unknown-key-hash (f46dea5).",
         technique=TECH + "; whole-participant simulation with scripted wire traffic and a delivered-once-in-order oracle",
     ),
+    "C12": dict(
+        engine="E2",
+        category="exploration",
+        text="Seeded deterministic simulation (engine E2) of one real DomainParticipant, observed through its public status events, and two scripted remote participants on the simulated network and clock. B advertises a lease from {absent, 0.5 s, 1 s, 3 s, 10 s, infinite} and follows a seed-chosen sequence of fresh announcements, re-sent announcements (same sequence number, RTPS 8.5.3.3), silences of 0.1/0.5/0.9/1.2 x lease, lease - 30 ms, lease + 2.5 s, 3 x lease or 70 s, disposes and SEDP announcements of a writer and a reader, at a seed-chosen phase of the 2 s clean-up tick, in either byte order, to the multicast or the unicast locator; C announces every second with a 3 s lease throughout. After every 1-10 ms slice: a Timeout loss only if nothing had arrived for longer than the advertised lease (100 s when absent), never with an infinite lease; a loss at the latest lease + clean-up period + 0.3 s after the last arrival; a dispose reported as Disposed within 0.3 s; every (re)appearance reported as discovered within 0.3 s; the participant's endpoints unmatched from the local reader and writer within 0.3 s of the loss and matched again within 1 s when a timed-out participant reappears; C is never lost.",
+        design_ref="DESIGN.md section 5 C12, section 12",
+        note="Signs of life are SPDP DATA submessages (fresh or re-sent); ParticipantMessage liveliness assertions are not exercised (RustDDS applies them to writer liveliness only). The scripted participants' payload bytes come from RustDDS' own PL_CDR serialisers. Found and fixed: default lease 60 s instead of RTPS' 100 s (2a7d23c); a timed-out participant re-sending its announcement under the same sequence number was never rediscovered (d171d61); endpoints of a reappeared participant not rematched (ceba711, found by C07).",
+        technique=TECH + "; timed obligations (safety and bounded liveness) on status events against a lease model on the simulated clock",
+    ),
     "C20": dict(
         engine="E1",
         category="exploration",
